@@ -1,3 +1,6 @@
 import Gaftools.Props.TieA2
+import Gaftools.Props.TieA9
 #print axioms Gaftools.TieA.finishScaffold_gen
 #print axioms Gaftools.TieA.numberChain_gen
+#print axioms Gaftools.TieA.bstep_gen
+#print axioms Gaftools.TieA.biccsFrom_gen
